@@ -312,7 +312,11 @@ func c18ReadOps() []c18ReadOp {
 	ops = append(ops, bin("Lt", tensor.Lt, isReal)...)
 	ops = append(ops, bin("Lte", tensor.Lte, isReal)...)
 	ops = append(ops, bin("Gt", tensor.Gt, isReal)...)
+	ops = append(ops, bin("Gte", tensor.Gte, isReal)...)
 	ops = append(ops, bin("ElEq", tensor.ElEq, isNum)...)
+	ops = append(ops, bin("ElNe", tensor.ElNe, isNum)...)
+	ops = append(ops, bin("Div", tensor.Div, isFloat)...)
+	ops = append(ops, bin("Pow", tensor.Pow, isFloat)...)
 	ops = append(ops, bin("MinBetween", tensor.MinBetween, isReal)...)
 	ops = append(ops, bin("MaxBetween", tensor.MaxBetween, isReal)...)
 	return ops
